@@ -56,6 +56,7 @@ def Skeleton.pinned : Skeleton where
   stubTwoOutSkipsDecodeWhenCancelled := true
   stubOneOutDecodesValueOnlyIfNotError := true
   respPublishAsync := true
+  respPublishFireAndForget := true
   respPublishKeyIsResCall := true
   respPublishValueIsResValue := true
   respErrIffTrimNonEmpty := true
